@@ -190,7 +190,7 @@ def gen_comparison(rng: random.Random, col: str, engine: str):
         # infinite Bayes factor: u = 0 on a level that carries no TF adjustment and is not the exact-match level a TF level
         # takes its u from ((0/x)^w * Infinity is undefined - outside the property's quantifier)
         cand = [l for l in nn if "tf" not in l and not (tf and l["kind"] == "eq")]
-        if cand and engine != "sqlite":  # known finding K6: SQLite cannot represent an infinite Bayes factor (corpus case keeps it visible)
+        if cand:  # on every engine since the repair of K6 (SQLite used to be unable to represent an infinite Bayes factor)
             rng.choice(cand)["u"] = 0.0
     return {"col": col, "levels": levels}
 
@@ -261,7 +261,7 @@ def gen_comparison_free(rng: random.Random, cols: list, engine: str):
                 l["tf"] = {"col": tfc, "weight": rng.choice([0.0, 0.3, 1.0, 1.0, 0.5]), "minU": rng.choice([0.0, 0.0, 0.01, 0.2])}
                 if not has_exact or (not is_plain_eq(l["cond"], tfc) and rng.random() < 0.25):
                     l["tf"]["disable_detection"] = True  # without an exact-match level on the TF column the level must name its own u
-    if rng.random() < 0.12 and engine != "sqlite":  # K6, as above
+    if rng.random() < 0.12:
         cand = [l for l in nn if "tf" not in l and not (tfc and is_plain_eq(level_cond(c, l), tfc))]
         if cand:
             rng.choice(cand)["u"] = 0.0
@@ -460,6 +460,11 @@ def guard(c, l, x, y):
     if l["kind"] == "else":
         return 1
     return cond_eval(level_cond(c, l), x, y)
+
+
+def guard_values(l, xv, yv):
+    """`guard` for a single-column level given the two values (the form other checks use)."""
+    return guard({"col": "v"}, l, {"v": xv}, {"v": yv})
 
 
 def exact_match_u(c, tfc):
